@@ -57,7 +57,7 @@ def controls_c18(rep):
     c18.check_const_queries(db, sc, unit_name='fixture', floors=False)
     c18.check_deny(db, sc, units=['fixture'])
     c18.check_escape(db, sc, tls, units=['fixture'])
-    for rule, must in (('E.static', 'last'), ('E.tls.dtor', 'pool'), ('E.const.write', 'Get_t'), ('E.deny', 'gsl_rng_env_setup'), ('E.escape', 'escaping_scratch')):
+    for rule, must in (('E.static', 'last'), ('E.tls.dtor', 'pool'), ('E.const.write', 'Get_t'), ('E.deny', 'gsl_rng_env_setup'), ('E.escape', 'escaping_scratch'), ('E.escape', 'view@')):
         hit = any(must in s for s in sc.fired.get(rule, []))
         rep.fixture('%s on fixtures/bad_shapes.cpp (%s)' % (rule, must), hit)
     sc2 = Scratch()
